@@ -1,6 +1,6 @@
 //! C14 harness: runs op lists on the real setsum::Setsum / sst::Setsum.
 //! ops separated by ';':
-//!   ins R ITEMHEX | insv R P1,P2,.. | rem R ITEMHEX | remv R P1,P2,.. | put R K TS V | del R K TS
+//!   ins R ITEMHEX | insv R P1,P2,.. | rem R ITEMHEX | remv R P1,P2,.. | put R K TS V | del R K TS | kvi R K TS V|~
 //!   add R A B | sub R A B | addas R A (+=) | subas R A (-=) | fd R HEX64 | fh R ASCIIHEX | out R
 //! Output: space separated hexdigest / none ; a panic anywhere in the case prints the outputs so far + PANIC
 use hx::{hex, unhex};
@@ -50,6 +50,19 @@ fn main() {
                         } else {
                             s.del(&unhex(t[2]), ts);
                         }
+                        regs[r(1)] = s.into_inner();
+                    }
+                    "kvi" => {
+                        // through sst::Setsum::insert(KeyValueRef)
+                        let mut s = sst::Setsum::from_digest(regs[r(1)].digest());
+                        let ts: u64 = t[3].parse().unwrap();
+                        let key = unhex(t[2]);
+                        let val = if t[4] == "~" { None } else { Some(unhex(t[4])) };
+                        s.insert(sst::KeyValueRef {
+                            key: &key,
+                            timestamp: ts,
+                            value: val.as_deref(),
+                        });
                         regs[r(1)] = s.into_inner();
                     }
                     "add" => regs[r(1)] = regs[r(2)] + regs[r(3)],
